@@ -462,7 +462,7 @@ def part_connect(tree, out, variations, all_perm_sims=False):
                 if got2 != want:
                     out.viol(f"connect:{vname}:{c}:order{order}", f"connect of {vname} over {c} with argument order {order} "
                              f"gives a different input<-output map: {sorted(got2 ^ want, key=repr)[:4]}", tree, "connect")
-                elif all_perm_sims or order == orders[-1]:
+                elif (all_perm_sims and tp.k == 2) or order == orders[-1]:
                     errs = simulate(frag2, tp, vals, consts, out)
                     out.add("simulations")
                     if errs:
@@ -635,7 +635,7 @@ def families(rep):
             "depth3": [dict(pd=D2, sd=D2, maxm=1, only_sub=True), dict(pd=[()], sd=D2, maxm=2, max_sub=1),
                        dict(pd=D2, sd=[], maxm=1, empty=True)],
         }
-        attr_dims, attr_pair_dims = D2, [()]
+        attr_dims, attr_pair_dims = [(), (2,), (1, 2)], [()]
     else:
         fam = {
             "depth2": [dict(pd=D4, sd=D4, maxm=2, empty=True), dict(pd=D2, sd=[], maxm=2, empty=True)],
@@ -666,7 +666,7 @@ def run(rep):
     rep.setcov("space_hash", hashlib.sha1("\n".join(sorted(seen)).encode()).hexdigest())
     opts = {"parts": ["sig", "connect", "corrupt", "meta"],
             "variations": QUICK_VARS if rep.quick else list(VARIATIONS),
-            "bases": ["k2:T+T.flip"] if rep.quick else ["k2:T+T.flip", "k3:rr", "k2:T+flipped(T)"],
+            "bases": ["k2:T+T.flip"] if rep.quick else ["k2:T+T.flip", "k3:rr"],
             "all_perm_sims": not rep.quick, "meta_both": True, "meta_max_members": rep.pick(3, 99)}
     # heavier trees first would need a cost model; interleave instead
     tasks = [(ch, opts) for ch in chunks(trees, 12)]
